@@ -81,6 +81,10 @@ def concretise(v: Dict[str, str], k: int) -> Optional[str]:
     if c == "numsexa":
         return ["%d:30:15.5" % (_n(s) + k), "-%d:05" % (_n(s) + k), "%d:59:59" % (_n(s) + k), "%d:07.25" % (_n(s) + k),
                 "%d;30;15" % (_n(s) + k), "%d 30" % (_n(s) + k)][k % 6]
+    if c == "longa":
+        return "x" * 1500 + "A" + tag
+    if c == "longb":
+        return "x" * 1500 + "B" + tag
     if c == "numzero":
         return [0, 0.0, "0", False][k % 3]       # a library user passes numbers, not text: 0 must still be serialised
     if c == "numbad":
